@@ -15,6 +15,7 @@ CONSTANTS
   Backlog = 1
   WksCheck = FALSE
   SnlClean = FALSE
+  KeepDead = FALSE
 VIEW View
 INVARIANT OneAddrPerSocket
 INVARIANT NoDoubleAlloc
